@@ -5,7 +5,7 @@ var table = map[string]propSpec{
 	"C02": {Level: "exploration", Parts: []partSpec{{Name: "c02-match", Bin: "plain"}, {Name: "c02-limit", Bin: "plain"}}},
 	"C01": {Level: "exploration", Parts: []partSpec{{Name: "c01-serialize", Bin: "p:c01"}, {Name: "c01-sign", Bin: "p:c01"}, {Name: "c01-tamper", Bin: "p:c01"}, {Name: "c01-calls", Bin: "p:c01"}, {Name: "c01-concurrent", Bin: "stmt"}, {Name: "ws-gate", Bin: "p:ws"}}},
 	"C10": {Level: "exploration", Parts: []partSpec{{Name: "c10-tokens", Bin: "p:c10"}, {Name: "c10-mutate", Bin: "p:c10"}, {Name: "c10-roundtrip", Bin: "p:c10"}}},
-	"C11": {Level: "exploration", Parts: []partSpec{{Name: "c11-complete", Bin: "p:c11"}, {Name: "c11-sound", Bin: "p:c11"}}},
+	"C11": {Level: "exploration", Parts: []partSpec{{Name: "c11-complete", Bin: "p:c11"}, {Name: "c11-sound", Bin: "p:c11"}, {Name: "ws-gate", Bin: "p:ws"}}},
 	"C15": {Level: "model_checking", Parts: []partSpec{{Name: "c15-cache", Bin: "inst"}, {Name: "c15-cache-stmt", Bin: "stmt"}, {Name: "c15-race", Bin: "race"}}},
 	"C16": {Level: "model_checking", Parts: []partSpec{{Name: "c16-replies", Bin: "inst"}, {Name: "cache-bfs", Bin: "p:cache"}}},
 	"C17": {Level: "model_checking", Parts: []partSpec{{Name: "c17-limits", Bin: "inst"}}},
